@@ -238,6 +238,40 @@ def _task(tkey, name, tier):
             obs.append(dict(oid=f'M/add-contract/{tkey}/budget', props=['C06', 'C10', 'C19'], status='undecided', detail='type budget exceeded'))
             break
 
+    # ---- family R: contract of XMLElement.remove(child) on a checked element, from every flag state:
+    #      exactly the child leaves its leaf (and the insertion list), every other leaf list is unchanged, the child is detached
+    for li in range(len(alpha)):
+        resR = {'ok': True, 'detail': None, 'n': 0, 'model': None, 'exc': None}
+
+        def harness_r(li=li):
+            e, c = fresh_container()
+            st = M.mkstate(mods, c)
+            leaf = st.leaves[li]
+            ch = lib.child(leaf.content.name)
+            other = lib.child(leaf.content.name)
+            leaf.content._xml_elements.suffix.append(ch)
+            ch.parent_xsd_element = leaf.content
+            ch._parent = e
+            e._unordered_children = [other, ch]
+            try:
+                e.remove(ch)
+                out = 'ok'
+            except Exception as ex:
+                out = 'exc:' + type(ex).__name__
+            resR['n'] += 1
+            grown = [(l.content.name, len(l.content._xml_elements.suffix)) for l in st.leaves if l.content._xml_elements.suffix]
+            good = (out == 'ok' and not grown and e._unordered_children == [other] and ch.__dict__.get('parent_xsd_element') is None and ch._parent is None)
+            if not good and resR['ok']:
+                resR['ok'] = False
+                resR['detail'] = f'remove({leaf.content.name}) -> {out}; leaf lists still holding designated children: {grown}; insertion list {len(e._unordered_children)}'
+                resR['model'] = _model_state(st)
+            return out
+        rs = E.explore(harness_r, maxpaths=2000, timeout=budget, query_timeout_ms=qt)
+        paths_total += len(rs)
+        uns = [r.detail for r in rs if r.status == 'unsupported']
+        a_ = alpha[li] if li < len(alpha) else str(li)
+        obs.append(dict(oid=f'M/remove-contract/{tkey}/{li}', props=['C06', 'C11', 'C19'], status='undecided' if uns else ('discharged' if resR['ok'] else 'violated'),
+                        detail=(uns[0] if uns else resR['detail']), paths=resR['n'], model=resR['model']))
     if any(o['status'] == 'undecided' for o in obs):
         # over budget already: the type is out of reach of the proved layer in this tier
         return dict(tkey=tkey, name=name, obligations=obs, seconds=round(time.time() - t_start, 1), paths=paths_total, wrapped=wrapped, invariant=None)
